@@ -458,8 +458,14 @@ input::
         numpy.seterr(**settings)
         if at: return x_
         # clip x0 within bounds
-        x_ = x_ != x0
-        x0[x_] = random.uniform(self._strictMin,self._strictMax)[x_]
+        clipped = x_
+        x_ = clipped != x0
+        settings = numpy.seterr(all='ignore')
+        rand = random.uniform(self._strictMin,self._strictMax)
+        numpy.seterr(**settings)
+        # no uniform draw exists for an infinite side, so clip at the bound
+        rand = numpy.where(numpy.isfinite(rand), rand, clipped)
+        x0[x_] = rand[x_]
         return x0
 
     def SetInitialPoints(self, x0, radius=0.05):
